@@ -252,6 +252,25 @@ def check_slice(lib, res):
         for i in range(1, b.arg_count + 1):
             if b.local_ty(i) == "i32":
                 env0[i] = Aff.var(w.names.get(i))
+        # closure values built before the loop (`let before_stop = |i| ..`): their captures are those variables
+        def resolve(op, depth=0):
+            if op.get("k") not in ("copy", "move") or depth > 4:
+                return None
+            if not op.get("p") and op["l"] in env0:
+                return env0[op["l"]]
+            defs = b.assigns_to(op["l"])
+            if len(defs) == 1 and defs[0][1] != "term":
+                rv = defs[0][2]
+                if rv["k"] == "ref" and not rv["place"]["p"]:
+                    return env0.get(rv["place"]["l"])
+                if rv["k"] == "use":
+                    return resolve(rv["op"], depth + 1)
+            return None
+        for bb_, i_, st_ in b.stmts():
+            if st_["k"] == "assign" and st_["rv"]["k"] == "agg" and st_["rv"].get("ak") == "closure" and not st_["place"]["p"] and bb_ not in cs:
+                vals_ = tuple(resolve(op) for op in st_["rv"]["ops"])
+                if all(v is not None for v in vals_):
+                    env0[st_["place"]["l"]] = ("tuple", vals_)
         w3 = W2(b, call_model=model)
         w3.init_env = lambda env0=env0: dict(env0)
         lp = w3.run(start=h, stop_at_loops=False)
